@@ -52,3 +52,15 @@ Definition icc_bytes_written (x : xsetup) (src_chunks : Z) : Z :=
   icc_written x + icc_chunk_overhead * chunks_written x src_chunks.
 (* the part of tj3TransformBufSize() that is not the per-sample budget of the image *)
 Definition marker_budget (x : xsetup) : Z := size_term x + GenDest.bufsize_slack.
+
+(* ---- the size function with the per-chunk overhead (gen_chunk_overhead = 0 while it counts the payload only):
+        source chunks are counted when the header is read (k = number of APP2 ICC markers of the source), the instance
+        profile is assumed to be written in gen_inst_chunk-byte chunks *)
+Definition temp_markers (x : xsetup) (k : Z) : Z := if gen_header_extracts (x_save x) then k else 0.
+Definition inst_chunks_assumed (chunk inst : Z) : Z :=
+  if inst =? 0 then 0 else inst / chunk + (if inst mod chunk =? 0 then 0 else 1).
+Definition size_term_bytes_with (ov chunk : Z) (x : xsetup) (k : Z) : Z :=
+  size_term x + ov *
+    (if gen_size_picks_temp (x_save x) (x_copynone x) (temp_icc x) (x_inst x) then temp_markers x k
+     else inst_chunks_assumed chunk (x_inst x)).
+Definition size_term_bytes (x : xsetup) (k : Z) : Z := size_term_bytes_with gen_chunk_overhead gen_inst_chunk x k.
